@@ -344,7 +344,15 @@ def sx_divmod(a, b):
 
 def sx_round(x, nd=None):
     if isinstance(x, SNum):
-        raise Unsupported('round() of symbolic number')
+        if nd is not None:
+            raise Unsupported('round(x, ndigits) of symbolic number')
+        if not x.is_real:
+            return x
+        # round half to even, exactly (real arithmetic)
+        fl = z3.ToInt(x.t)
+        frac = x.t - z3.ToReal(fl)
+        r = z3.If(frac < z3.RealVal('1/2'), fl, z3.If(frac > z3.RealVal('1/2'), fl + 1, z3.If(fl % 2 == 0, fl, fl + 1)))
+        return mknum(r)
     return builtins.round(x) if nd is None else builtins.round(x, nd)
 
 
